@@ -202,7 +202,14 @@ def render_nwchem(elems, basis, layout, rng):
             lines.append("#BASIS SET: generated")
         for lab, exps, cols in basis[el]:
             lines.append("%s    %s" % (el, lab.upper() if layout["upper"] else lab))
+            inner = layout.get("inner")
+            if inner == "comment":
+                lines.append("# exponent   coefficient(s)")
             for k, e in enumerate(exps):
+                if k and inner == "blank":
+                    lines.append("   " if k % 2 else "")
+                if k and inner == "comment" and k == len(exps) - 1:
+                    lines.append("#   most diffuse primitive")
                 lines.append("      " + "       ".join([_fmt(e, layout["style"], rng)] + [_fmt(c[k], layout["style"], rng) for c in cols]))
             if layout["blank"]:
                 lines.append("")
@@ -275,6 +282,10 @@ class ParserRoundTrip:
                 for style in ("E", "D", "plain"):
                     for blank in (False, True):
                         out.append(dict(fmt=fmt, header=header, style=style, blank=blank, comments=(header % 2 == 0), upper=not blank, n=n))
+        # NWChem: comment lines and blank lines inside a shell block (between the header and the last primitive)
+        for inner in ("comment", "blank"):
+            for style in ("E", "plain"):
+                out.append(dict(fmt="nwchem", header=1, style=style, blank=(inner == "comment"), comments=True, upper=True, n=n, inner=inner))
         return out
 
     def run(self, shape, M):
@@ -282,7 +293,7 @@ class ParserRoundTrip:
         seed = int(os.environ.get("VERIF_SEED", "0"))
         import hashlib
 
-        rng = random.Random(int(hashlib.sha1(repr((seed, shape["fmt"], shape["header"], shape["style"], shape["blank"])).encode()).hexdigest()[:12], 16))
+        rng = random.Random(int(hashlib.sha1(repr((seed, shape["fmt"], shape["header"], shape["style"], shape["blank"], shape.get("inner"))).encode()).hexdigest()[:12], 16))
         layout = shape
         tmpdir = tempfile.mkdtemp(prefix="gbasis-verif-")
         try:
